@@ -17,7 +17,7 @@ EXPLANATION = (
     "exactly the chain suffix {se..} as hidden set with se's endpoints (K10, unbounded in n and in the number of signed "
     "edges up to the 63-bit mask); the sequential tree lookup returns a minimum-weight odd member of the SORTED candidate list "
     "(first valid candidate), modularly against the candidate builder's contract K11 (proved for <= 24 candidates; the cap "
-    "comes only from stating sortedness of the ghost table by an unwound harness loop), and the caller really hands it a list sorted by weight whenever it passes sorted_cycles=true (K11-pre, against the contracts of std::sort / stable_sort / partial_sort); the composed main loops return exactly the sum of the weights the phases reported for the emitted cycles (K16, bounded csd<=5); SPTree::update_parities sets every node's parity to the parity of witness edges on its root path (bounded: trees with <= 5 nodes); the candidate builder itself meets K11 - found iff odd, no repeated edge among closing edge + both root paths, total weight within the limit, result = that edge set with its true weight - on trees with <= 4 vertices / 6 edges (thorough 5 / 8), weights 1..7, by plain CBMC against a specification walked by the harness (bounded).  BOUNDED stand-ins (not "
+    "comes only from stating sortedness of the ghost table by an unwound harness loop), and the caller really hands it a list sorted by weight whenever it passes sorted_cycles=true (K11-pre, against the contracts of std::sort / stable_sort / partial_sort); the composed main loops return exactly the sum of the weights the phases reported for the emitted cycles (K16, loop contracts with quantified invariants, csd<=8 / 10); SPTree::update_parities sets every node's parity to the parity of witness edges on its root path (bounded: trees with <= 5 nodes); the candidate builder itself meets K11 - found iff odd, no repeated edge among closing edge + both root paths, total weight within the limit, result = that edge set with its true weight - on trees with <= 4 vertices / 6 edges (thorough 5 / 8), weights 1..7, by plain CBMC against a specification walked by the harness (bounded).  BOUNDED stand-ins (not "
     "proof): K9 bidirectional_signed_dijkstra against a two-level-graph shortest-path oracle for every witness "
     "set S, every start vertex, every hidden-chain prefix and limits at/around the optimum; K10 "
     "OddCycleFinder::find against the minimum over all enumerated odd cycles; K16 whole functions: returned "
@@ -25,7 +25,7 @@ EXPLANATION = (
 
 
 def run(rep):
-    engine.run_units(rep, k12_scalar.units(tier()) + k10_phase.units(tier()) + [u for u in k08_bodies.units(tier()) if u.get('unit', '').startswith('K11')] + [u for u in k11_sorted.units(tier()) if 'mpi' not in u.get('unit', '')] + [u for u in k16_mainloop.units(tier()) if not u.get('unit', '').endswith('_tbb')] + k11_parity.units(tier()) + k11_builder.units(tier()))
+    engine.run_units(rep, k12_scalar.units(tier()) + k10_phase.units(tier()) + [u for u in k08_bodies.units(tier()) if u.get('unit', '').startswith('K11')] + [u for u in k11_sorted.units(tier()) if 'mpi' not in u.get('unit', '')] + [u for u in k16_mainloop.units(tier()) if 'signed_tbb' not in u.get('unit', '')] + k11_parity.units(tier()) + k11_builder.units(tier()))
     common.native_filtered(
         rep, "e3_exact", common.C02_KINDS,
         functions={"mcb_sva_signed": "bounded(E3 set)", "mcb_sva_fvs_trees": "bounded(E3 set)",
